@@ -151,12 +151,15 @@ func runPair(pc pairCfg) (c, s hsres, deadlock bool) {
 			b.Close()
 		}
 	}()
-	timeout := time.After(5 * time.Second)
+	timeout := time.After(pairTimeout)
 	for i := 0; i < 2; i++ {
 		select {
 		case c = <-cch:
 		case s = <-sch:
 		case <-timeout:
+			// (the verdict is a violation from here on: later pairs that hang as well are given up on
+			// sooner, so that a library in which every pair hangs does not cost 5 s per pair)
+			pairTimeout = 300 * time.Millisecond
 			return c, s, true
 		}
 	}
@@ -420,6 +423,9 @@ func c11(c *ctx) {
 // debugDial dials through wsutil.DebugDialer against a scripted server whose
 // response head has a pad header of padLen bytes and is followed by trailing
 // frames, either in the same segment (whole) or in small reads.
+// pairTimeout: how long a pair of peers may take before it counts as hanging.
+var pairTimeout = 5 * time.Second
+
 // debugDialEOL: the line end of the scripted response ("\r\n", "\n" or "mixed").
 var debugDialEOL = "\r\n"
 
